@@ -332,15 +332,18 @@ func (e *exec) Body() {
 		// either closed and reported, or every later valid write was delivered
 		if !e.closeA {
 			wantAfter := wantA
+			alt := ""
 			if p.Fault == "write-error" || p.Fault == "write-timeout" {
-				// the item in flight at the failing call is lost (it is the one after the frames
-				// completed by the calls accepted before); everything else must arrive
+				// the item in flight at the failing call may be lost (it is the one after the frames
+				// completed by the calls accepted before) or delivered after all (a writer that
+				// repeats the call); everything else must arrive, once, in order
 				idx := e.completeBeforeCall(e.a, e.failAt)
 				if idx >= 0 && idx < len(wantA) {
+					alt = fmt.Sprint(wantA)
 					wantAfter = append(append([]uint32{}, wantA[:idx]...), wantA[idx+1:]...)
 				}
 			}
-			if fmt.Sprint(gotA) != fmt.Sprint(wantAfter) {
+			if g := fmt.Sprint(gotA); g != fmt.Sprint(wantAfter) && g != alt {
 				e.problems = append(e.problems, fmt.Sprintf("after the failed write the channel stays open (no close event) but is silent: transport A received %v, valid writes submitted %v", gotA, wantAfter))
 			}
 		}
